@@ -25,6 +25,11 @@ func TestMain(m *testing.M) {
 			flag.Set("stderrthreshold", "FATAL")
 		}
 	}
+	// The manager logs an ERROR line per failed attempt; glog would flush and
+	// fsync the files on each of them.
+	if f := flag.Lookup("logbuflevel"); f != nil {
+		flag.Set("logbuflevel", "3")
+	}
 	// rand.Seed must keep seeding the global source (jittered cases): belt and
 	// braces next to the go:debug directive above.
 	if v := os.Getenv("GODEBUG"); v == "" {
